@@ -55,7 +55,8 @@ Section Run.
         let '(st', mobs) := step S st o in
         let iobs := args r in
         (* a model observation [unsup] means: outside the modelled fragment, not compared *)
-        let mm := if lines_eqb mobs iobs || lines_eqb mobs [bs "unsup"] then []
+        (* [judged]: the model makes no prediction of its own, the oracle alone decides *)
+        let mm := if lines_eqb mobs iobs || lines_eqb mobs [bs "unsup"] || lines_eqb mobs [bs "judged"] then []
                   else [bs "M" :: nat_to_dec idx :: mobs] in
         (* an input the model declares outside its fragment is neither compared nor judged - except for faults
            ("C05:" clauses: nothing may panic on any input) *)
